@@ -950,4 +950,186 @@ theorem step_query_R (f : File) (x i : Nat) (q : Query) {h h' : Heap} (hr : R f 
   obtain ⟨_, b, c⟩ := query_pure2 f i q h h (R_refl hr.1)
   exact ⟨b.1, hr.2.1, c.trans hr.2.2⟩
 
+
+/-! ### histories and their twins -/
+
+/-- what the twin of step `n` is asked: the derivations made before it (with their labels), then the step -/
+def twinOf (L : List (Nat × Op)) (n : Nat) : List (Nat × Op) :=
+  ((L.take n).filter fun a => a.2.isDerive) ++ (L.drop n).take 1
+
+def lastAns (r : Heap × List Ans) : Ans := (r.2.getLast?).getD .dead
+
+theorem runL_length (f : File) : ∀ (L : List (Nat × Op)) (h : Heap), (runL f h L).2.length = L.length := by
+  intro L
+  induction L with
+  | nil => intro h; rfl
+  | cons a rest ih => intro h; obtain ⟨x, op⟩ := a; simp [runL, ih]
+
+theorem lastAns_cons (f : File) (h : Heap) (x : Nat) (op : Op) (T : List (Nat × Op)) (hT : T ≠ []) :
+    lastAns (runL f h ((x, op) :: T)) = lastAns (runL f (step f h x op).1 T) := by
+  unfold lastAns
+  simp only [runL]
+  have hne : (runL f (step f h x op).1 T).2 ≠ [] := by
+    intro h0
+    have := runL_length f T (step f h x op).1
+    rw [h0] at this
+    cases T with
+    | nil => exact hT rfl
+    | cons a t => simp at this
+  rw [List.getLast?_cons_of_ne_nil hne]
+
+theorem twinOf_ne_nil {L : List (Nat × Op)} {n : Nat} (hn : n < L.length) : twinOf L n ≠ [] := by
+  unfold twinOf
+  intro h0
+  have h1 := (List.append_eq_nil_iff.mp h0).2
+  have h2 : (L.drop n).length = L.length - n := List.length_drop
+  cases hd : L.drop n with
+  | nil => rw [hd] at h2; simp at h2; omega
+  | cons a t => rw [hd] at h1; simp at h1
+
+/-- **Main simulation**: the `n`-th answer of a history equals what its twin answers, for any two calm heaps
+    with the same skeleton. -/
+theorem run_twin (f : File) (hS : SliceClosed f) :
+    ∀ (L : List (Nat × Op)) (h h' : Heap) (n : Nat), R f h h' → n < L.length →
+      (runL f h L).2[n]? = some (lastAns (runL f h' (twinOf L n))) := by
+  intro L
+  induction L with
+  | nil => intro h h' n _ hn; cases hn
+  | cons a rest ih =>
+    intro h h' n hr hn
+    obtain ⟨x, op⟩ := a
+    cases n with
+    | zero =>
+      have : twinOf ((x, op) :: rest) 0 = [(x, op)] := by simp [twinOf]
+      rw [this]
+      simp only [runL, List.getElem?_cons_zero, lastAns, List.getLast?_singleton, Option.getD_some]
+      rw [(step_sim f hS x op h h' hr).1]
+    | succ n =>
+      have hn' : n < rest.length := by simpa using hn
+      simp only [runL, List.getElem?_cons_succ]
+      cases op with
+      | q i q =>
+        have : twinOf ((x, Op.q i q) :: rest) (n + 1) = twinOf rest n := by simp [twinOf, Op.isDerive]
+        rw [this]
+        exact ih _ h' n (step_query_R f x i q hr) hn'
+      | d i d =>
+        have : twinOf ((x, Op.d i d) :: rest) (n + 1) = (x, Op.d i d) :: twinOf rest n := by
+          simp [twinOf, Op.isDerive]
+        rw [this, lastAns_cons f h' x _ _ (twinOf_ne_nil hn')]
+        exact ih _ _ n (step_sim f hS x (.d i d) h h' hr).2 hn'
+
+theorem runL_good (f : File) (hS : SliceClosed f) :
+    ∀ (L : List (Nat × Op)) (h : Heap), Good f h → Good f (runL f h L).1 := by
+  intro L
+  induction L with
+  | nil => intro h hG; exact hG
+  | cons a rest ih =>
+    intro h hG
+    obtain ⟨x, op⟩ := a
+    simp only [runL]
+    exact ih _ (step_sim f hS x op h h (R_refl hG)).2.1
+
+theorem Good_init (f : File) (s e : Int) (hU : Untruncated f s) : Good f [initObj s e] := by
+  refine ⟨?_, ?_, ?_⟩
+  · intro i o ho _
+    cases i with
+    | zero => simp at ho; subst ho; exact hU
+    | succ i => simp at ho
+  · intro i o ho par rest hc
+    cases i with
+    | zero => simp at ho; subst ho; simp [initObj] at hc
+    | succ i => simp at ho
+  · intro i o ho p v hl
+    cases i with
+    | zero => simp at ho; subst ho; simp [initObj, lookup] at hl
+    | succ i => simp at ho
+
+theorem label_length : ∀ (ops : List Op) (x : Nat), (labelFrom x ops).length = ops.length := by
+  intro ops
+  induction ops with
+  | nil => intro x; rfl
+  | cons a t ih => intro x; simp [labelFrom, ih]
+
+/-- `num_frames` asked twice: the second call returns the memoised value and changes nothing. -/
+theorem numFrames_twice (h : Heap) (i : Nat) :
+    numFrames (numFrames h i).1 i = ((numFrames h i).1, (numFrames h i).2) := by
+  unfold numFrames
+  cases ho : h[i]? with
+  | none => simp [ho]
+  | some o =>
+    simp only
+    cases hf : o.frames with
+    | some v => simp [ho, hf]
+    | none =>
+      simp only [setObj]
+      rw [get_set_self ho]
+
+
+/-! ### the repair -/
+
+theorem fixStart_shape (f : File) (o : Obj) {o2 : Obj} (hp : fixStart f o = .ok o2) :
+    o2 = { o with start := o2.start, cache := [], gen := o.gen + 1 } := by
+  unfold fixStart at hp
+  split at hp
+  · cases hp
+  · split at hp
+    · cases hp
+    · cases hp; rfl
+
+theorem photonAccess_shape (f : File) (o : Obj) (c : Color) {o' : Obj} {w : Option (Int × Int)}
+    (hp : photonAccess f o c = .ok (o', w)) :
+    o' = { o with start := o'.start } ∨ o' = { o with start := o'.start, cache := [], gen := o.gen + 1 } := by
+  unfold photonAccess at hp
+  cases hc : f.chan c with
+  | none => rw [hc] at hp; cases hp; left; rfl
+  | some ch =>
+    rw [hc] at hp
+    simp only at hp
+    cases hw : chanWindow f.dt ch o.start o.stop with
+    | none => rw [hw] at hp; cases hp; left; rfl
+    | some tw =>
+      obtain ⟨tl, ce⟩ := tw
+      rw [hw] at hp
+      simp only at hp
+      generalize ho1 : (if tl - f.dt < o.start ∧ o.start < tl then { o with start := tl } else o) = o1 at hp
+      have h1 : o1 = { o with start := o1.start } := by
+        rw [← ho1]; split <;> rfl
+      split at hp
+      · cases hfx : fixStart f o1 with
+        | error er => rw [hfx] at hp; cases hp
+        | ok o2 =>
+          rw [hfx] at hp
+          cases hp
+          right
+          have := fixStart_shape f _ hfx
+          rw [this, h1]
+      · cases hp
+        left
+        exact h1
+
+/-- after a photon-count access the source object is a freshly constructed object at its (possibly repaired)
+    start, apart from the identity of its (empty) memo table -/
+theorem photonAccess_init (f : File) (s e : Int) (c : Color) {o' : Obj} {w : Option (Int × Int)}
+    (hp : photonAccess f (initObj s e) c = .ok (o', w)) :
+    o'.skel = (initObj o'.start e).skel ∧ o'.cache = [] := by
+  rcases photonAccess_shape f _ c hp with h | h
+  · rw [h]; exact ⟨rfl, rfl⟩
+  · rw [h]; exact ⟨rfl, rfl⟩
+
+theorem Good_single (f : File) (o : Obj) (hc : o.cache = []) (hch : o.chain = []) (hU : Untruncated f o.start) :
+    Good f [o] := by
+  refine ⟨?_, ?_, ?_⟩
+  · intro i o1 ho _
+    cases i with
+    | zero => simp at ho; subst ho; exact hU
+    | succ i => simp at ho
+  · intro i o1 ho par rest hc1
+    cases i with
+    | zero => simp at ho; subst ho; rw [hch] at hc1; cases hc1
+    | succ i => simp at ho
+  · intro i o1 ho p v hl
+    cases i with
+    | zero => simp at ho; subst ho; rw [hc] at hl; simp [lookup] at hl
+    | succ i => simp at ho
+
 end Verif.C19
